@@ -21,7 +21,9 @@ pub struct Corr {
     /// 10 inner commitment changed *before* the commit phase (through fri_commit),
     /// 11 drop a sibling leaf, 12 drop an inner auth node,
     /// 13 zero coefficient appended to the last layer of the *commitment* (fri_verify called directly),
-    /// 14 top coefficient dropped from the commitment's last layer, 15 last layer doubled with zeros
+    /// 14 top coefficient dropped from the commitment's last layer, 15 last layer doubled with zeros,
+    /// 16 only a prefix of the queries answered (values, points and witness built for the prefix),
+    /// 17 last input value dropped, 18 last query point dropped
     pub kind: u8,
     pub a: u16,
     pub b: u16,
@@ -42,13 +44,21 @@ fn pick(sel: u16, len: u64) -> u64 {
 pub fn strategy(budget: u32) -> impl Strategy<Value = Case> {
     (
         inst_strategy(budget),
-        proptest::collection::vec((0u8..16, any::<u16>(), any::<u16>()).prop_map(|(kind, a, b)| Corr { kind, a, b }), 1..10),
+        proptest::collection::vec((0u8..19, any::<u16>(), any::<u16>()).prop_map(|(kind, a, b)| Corr { kind, a, b }), 1..10),
         prop_oneof![4 => Just(None), 1 => any::<u16>().prop_map(Some)],
     )
-        .prop_map(|(inst, corrs, high)| Case { inst, corrs, high })
+        .prop_map(|(mut inst, corrs, high)| {
+            // shapes with a coset whose fold does not depend on the challenge or the point (zero, constant,
+            // monomial, zero at several queried points of one coset) would make some corruptions
+            // unobservable by design: C07 keeps the PRF shape and the one with a single queried root
+            if inst.pshape != 3 {
+                inst.pshape = 0;
+            }
+            Case { inst, corrs, high }
+        })
 }
 
-const KINDS: [&str; 16] = [
+const KINDS: [&str; 19] = [
     "input_value",
     "query_point",
     "sibling_leaf",
@@ -65,6 +75,9 @@ const KINDS: [&str; 16] = [
     "commitment_last_layer_plus_zero",
     "commitment_last_layer_minus_one",
     "commitment_last_layer_doubled",
+    "only_prefix_of_queries_answered",
+    "input_value_dropped",
+    "query_point_dropped",
 ];
 
 /// returns Vec of (class, fingerprint-key, accepted?) or a panic-as-rejection; Err(fail) on harness-level problems
@@ -241,6 +254,22 @@ pub fn check(case: &Case) -> Outcome {
                     cm.last_layer_coefficients.resize(2 * n, Felt::ZERO);
                 }));
             }
+            16 => {
+                if qs.len() < 2 {
+                    continue;
+                }
+                let k = 1 + pick(c.b, qs.len() as u64 - 1) as usize;
+                let o2 = fi.decommit(&qs[..k]);
+                dec = Decommitment { values: o2.values.clone(), points: o2.points.clone() };
+                w = witness(&o2);
+                detail = format!("/{}", if k == 1 { "one" } else { "several" });
+            }
+            17 => {
+                dec.values.pop();
+            }
+            18 => {
+                dec.points.pop();
+            }
             _ => unreachable!(),
         }
         any = true;
@@ -291,4 +320,4 @@ pub fn replay(_ctx: &Ctx, v: &Value) -> Result<Outcome, String> {
     Ok(check(&c))
 }
 
-pub const RULE: &str = "proptest-generated honest FRI instances (as C06) each with 1..9 independent single corruptions out of 13 kinds (input value, read query point, sibling leaf, inner authentication node, inner commitment after/before the commit phase, folding challenge, last-layer coefficient, last-layer length +1/-1, declared bound +1, dropped sibling leaf, dropped authentication node), each applied alone to a fresh copy and required to be not accepted; 20% of cases are high-degree instances (degree in [bound, domain), honestly folded, last layer truncated, >= 24 queries) that must be rejected. Non-trivial = at least one corruption applicable; class histogram by kind x layer x step; distinct by case hash per hash build. PRF field values, so a changed value changes the fold (no zero-polynomial degeneracy)";
+pub const RULE: &str = "proptest-generated honest FRI instances (as C06) each with 1..9 independent single corruptions out of 19 kinds (only a prefix of the queries answered with a witness built for that prefix, last input value / query point dropped, commitment's last layer with a zero appended / top dropped / doubled, input value, read query point, sibling leaf, inner authentication node, inner commitment after/before the commit phase, folding challenge, last-layer coefficient, last-layer length +1/-1, declared bound +1, dropped sibling leaf, dropped authentication node), each applied alone to a fresh copy and required to be not accepted; 20% of cases are high-degree instances (degree in [bound, domain), honestly folded, last layer truncated, >= 24 queries) that must be rejected. Non-trivial = at least one corruption applicable; class histogram by kind x layer x step; distinct by case hash per hash build. polynomial shapes: PRF full degree, or vanishing at the first queried point (the zero, constant, monomial and all-queries-vanishing shapes are left to C06: a coset of zeros folds to zero whatever the challenge, which would make some corruptions unobservable by design)";
